@@ -8,7 +8,7 @@ use gvharness::*;
 use std::collections::{BTreeMap, BTreeSet};
 
 const MATURITY: u64 = 3;
-const N_INVALID_KINDS: u64 = 20;
+const N_INVALID_KINDS: u64 = 22;
 
 #[derive(Clone, Default)]
 struct AState {
@@ -385,6 +385,18 @@ impl Gen {
 				}
 			}
 		}
+		if kind == 20 || kind == 21 {
+			// the header's total kernel offset zeroed / replaced by a value that is not a scalar on
+			// a coinbase-only block: the block on its own balances with a zero offset, only the
+			// running sums over the whole chain expose it
+			// (a zeroed offset is only wrong where the chain's real total is not zero; a value that
+			// is not a scalar is wrong everywhere, the zero-total chain included)
+			if kind == 20 && prev_total_offset_is_zero(&self.kit.blks[parent].block.header) {
+				return None;
+			}
+			txs.clear();
+			label = if kind == 20 { "total-kernel-offset-zeroed" } else { "total-kernel-offset-not-a-scalar" };
+		}
 		let mut cb_key = None;
 		if kind == 19 {
 			// the reward paid to the key (and for the fees) of a coinbase that is still unspent:
@@ -484,6 +496,14 @@ impl Gen {
 				b.header.height += 1;
 				label = "height-wrong";
 			}
+			20 => {
+				b.header.total_kernel_offset = grin_keychain::BlindingFactor::zero();
+				tags.push("sums:Committed".into());
+			}
+			21 => {
+				b.header.total_kernel_offset = grin_keychain::BlindingFactor::from_slice(&[0xffu8; 32]);
+				tags.push("sums:Committed".into());
+			}
 			18 => {
 				// a plain output carrying a forged coinbase flag (the body stays sorted)
 				let idx = b.body.outputs.iter().position(|o| !o.is_coinbase())?;
@@ -513,6 +533,10 @@ impl Gen {
 		}
 		self.blks_described = self.kit.blks.len();
 	}
+}
+
+fn prev_total_offset_is_zero(h: &grin_core::core::BlockHeader) -> bool {
+	h.total_kernel_offset == grin_keychain::BlindingFactor::zero()
 }
 
 #[derive(Clone, Debug)]
@@ -845,11 +869,14 @@ fn run_history(out: &mut Out, rng: &mut Rng, work: &str, hist: usize, big: bool)
 /// (head >= tail + horizon + 60), with spends all along; observations and roots before and
 /// after compaction, after a restart, and through a reorganisation that stays inside the horizon,
 /// against a twin node that never compacts.
-fn run_long(out: &mut Out, rng: &mut Rng, work: &str) -> BTreeMap<String, u64> {
+fn run_long(out: &mut Out, rng: &mut Rng, work: &str, user: bool) -> BTreeMap<String, u64> {
 	out.raw("chain reset");
 	let mut stats: BTreeMap<String, u64> = BTreeMap::new();
 	let mut kit = Kit::new(&format!("{}/builder_long", work));
-	let n_trunk = 86u64;
+	// `user`: the UserTesting parameters, where the cut-through horizon (70) is larger than the state
+	// sync threshold (20): compaction needs 131+ blocks and the archive header lies inside the horizon
+	let n_trunk = if user { 140u64 } else { 86u64 };
+	let fork_depth = if user { 40usize } else { 11usize };
 	let mut tip = 0usize;
 	let mut trunk = vec![0usize];
 	let mut spendable: Vec<(usize, u64)> = vec![(0, 0)];
@@ -932,7 +959,7 @@ fn run_long(out: &mut Out, rng: &mut Rng, work: &str) -> BTreeMap<String, u64> {
 	// it un-spends everything the last 11 trunk blocks spent
 	let n = trunk.len() - 1;
 	let mut fork = vec![];
-	let mut t = trunk[n - 11];
+	let mut t = trunk[n - fork_depth];
 	for d in 0..3 {
 		match kit.new_block(t, if d == 2 { 60 } else { 2 }, &[]) {
 			Ok(id) => {
@@ -984,6 +1011,11 @@ fn run_long(out: &mut Out, rng: &mut Rng, work: &str) -> BTreeMap<String, u64> {
 	if tail_after <= tail_before {
 		out.raw(&format!("#ORACLE-FAIL C08 harness: compaction did not run (tail {} -> {})", tail_before, tail_after));
 	}
+	{
+		// which full blocks survive: the lowest height whose block is still in the store
+		let lowest = trunk.iter().skip(1).find(|i| subj.c().get_block(&kit.blks[**i].block.hash()).is_ok()).map(|i| kit.blks[*i].height);
+		out.raw(&format!("#STAT long:lowest-block-kept-after-compaction height={:?} head={} tail={}", lowest, n_trunk, tail_after));
+	}
 	check_pair(out, &subj, &twin, "after-compaction");
 	if subj.roots() != roots_before {
 		out.raw("#ORACLE-FAIL C08 compaction changed the state roots");
@@ -1034,6 +1066,141 @@ fn run_long(out: &mut Out, rng: &mut Rng, work: &str) -> BTreeMap<String, u64> {
 	*stats.entry("long:blocks".into()).or_insert(0) += kit.blks.len() as u64;
 	*stats.entry("long:outputs".into()).or_insert(0) += kit.outs.len() as u64;
 	*stats.entry("long:spent-plain".into()).or_insert(0) += spent_plain.len() as u64;
+	stats
+}
+
+/// C03 at depth: (1) a fork rooted more than 50 blocks below the head that carries more work
+/// than the whole main chain, delivered after / before it; (2) exactly MAX_ORPHAN_SIZE blocks
+/// waiting in the orphan pool at once (children delivered before the first block), with a few
+/// duplicates. Every node must end on the most-work chain with the state of a node that got the
+/// blocks in order.
+fn run_deep(out: &mut Out, rng: &mut Rng, work: &str) -> BTreeMap<String, u64> {
+	out.raw("chain reset");
+	let mut stats: BTreeMap<String, u64> = BTreeMap::new();
+	let mut kit = Kit::new(&format!("{}/builder_deep", work));
+	// main chain of 66 light blocks, a few spends on the way
+	let mut trunk = vec![0usize];
+	for h in 1..=66u64 {
+		let parent = *trunk.last().unwrap();
+		let mut specs = vec![];
+		if h % 9 == 5 {
+			// spend the coinbase of the block 4 below
+			let b = &kit.blks[trunk[(h - 4) as usize]].block;
+			let cb = b.outputs().iter().find(|o| o.is_coinbase()).map(|o| *kit.by_commit.get(&o.commitment()).unwrap());
+			if let Some(o) = cb {
+				let v = kit.outs[o].value;
+				specs.push(TxSpec { inputs: vec![o], outputs: vec![(v - 2, None)], kernel: KSpec::Plain(2) });
+			}
+		}
+		match kit.new_block(parent, 1, &specs) {
+			Ok(id) => trunk.push(id),
+			Err(e) => {
+				*stats.entry(format!("generator:{}", e)).or_insert(0) += 1;
+				break;
+			}
+		}
+	}
+	// the fork leaves the main chain at height 5 (61 blocks below its tip): its first blocks carry
+	// less total work than the main tip, its last ones more than the whole main chain
+	let mut fork = vec![];
+	let mut t = trunk[5];
+	for d in 0..8 {
+		match kit.new_block(t, if d < 2 { 1 } else { 30 }, &[]) {
+			Ok(id) => {
+				fork.push(id);
+				t = id;
+			}
+			Err(_) => break,
+		}
+	}
+	// a second builder tree for the orphan scenario: a straight chain of MAX_ORPHAN_SIZE + 1 blocks
+	let n_orph = grin_chain::MAX_ORPHAN_SIZE;
+	let mut line = vec![0usize];
+	for _ in 0..=n_orph {
+		let parent = *line.last().unwrap();
+		match kit.new_block(parent, 200, &[]) {
+			Ok(id) => line.push(id),
+			Err(_) => break,
+		}
+	}
+	for l in kit.out_lines(0) {
+		out.raw(&l);
+	}
+	for id in 0..kit.blks.len() {
+		out.raw(&kit.blk_line(id));
+	}
+	*stats.entry("deep:main-chain-blocks".into()).or_insert(0) += (trunk.len() - 1) as u64;
+	*stats.entry("deep:fork-blocks".into()).or_insert(0) += fork.len() as u64;
+	*stats.entry("deep:fork-root-below-tip".into()).or_insert(0) += (trunk.len() - 1 - 5) as u64;
+	let deliver = |out: &mut Out, subj: &Subject, name: &str, ids: &[usize], obs_every: usize| {
+		for (k, i) in ids.iter().enumerate() {
+			let r = subj.deliver_block(&kit.blks[*i].block);
+			out.line(&format!("chain deliver {} b{}", name, i), &r);
+			if (k + 1) % obs_every == 0 || k + 1 == ids.len() {
+				out.line(&format!("chain obs {}", name), &subj.obs(&kit));
+			}
+		}
+	};
+	// (1) deep fork: main chain first, then the fork; and the other way round
+	let s0 = Subject::new(&format!("{}/deep_s0", work), &kit.genesis);
+	out.raw("chain new s0");
+	deliver(out, &s0, "s0", &trunk[1..], 11);
+	deliver(out, &s0, "s0", &fork, 1);
+	let s1 = Subject::new(&format!("{}/deep_s1", work), &kit.genesis);
+	out.raw("chain new s1");
+	deliver(out, &s1, "s1", &trunk[1..=5], 5);
+	deliver(out, &s1, "s1", &fork, 1);
+	deliver(out, &s1, "s1", &trunk[6..], 11);
+	if s0.obs(&kit) != s1.obs(&kit) || s0.roots() != s1.roots() {
+		out.raw(&format!(
+			"#ORACLE-FAIL C03 a fork rooted {} blocks below the head: final state depends on the delivery order: main-first=[{}] fork-first=[{}]",
+			trunk.len() - 1 - 5,
+			s0.head_str(&kit),
+			s1.head_str(&kit)
+		));
+	}
+	for (n, s) in [("s0", &s0), ("s1", &s1)] {
+		let v = match s.c().validate(false) {
+			Ok(_) => "ok".to_string(),
+			Err(e) => format!("err:{}", error_class(&e)),
+		};
+		out.line(&format!("chain validate {}", n), &v);
+	}
+	// (2) exactly MAX_ORPHAN_SIZE waiting orphans: blocks 2..=N+1 of the line in random order with
+	// a few duplicates, then block 1; reference: in order
+	if line.len() == n_orph + 2 {
+		let s2 = Subject::new(&format!("{}/deep_s2", work), &kit.genesis);
+		out.raw("chain new s2");
+		let mut later: Vec<usize> = line[2..].to_vec();
+		for i in (1..later.len()).rev() {
+			let j = rng.below(i as u64 + 1) as usize;
+			later.swap(i, j);
+		}
+		for k in 0..5 {
+			let d = later[rng.below(later.len() as u64) as usize];
+			later.insert(later.len() - k, d);
+		}
+		// the headers are known first (as after header sync), so that a body whose parent body is
+		// missing is parked as an orphan
+		for i in &line[1..] {
+			let r = s2.deliver_header(&kit.blks[*i].block.header);
+			out.line(&format!("chain hdr s2 b{}", i), &r);
+		}
+		deliver(out, &s2, "s2", &later, 50);
+		*stats.entry("deep:simultaneous-orphans".into()).or_insert(0) += s2.c().orphans_len() as u64;
+		deliver(out, &s2, "s2", &line[1..2], 1);
+		let s3 = Subject::new(&format!("{}/deep_s3", work), &kit.genesis);
+		out.raw("chain new s3");
+		deliver(out, &s3, "s3", &line[1..], 50);
+		if s2.obs(&kit) != s3.obs(&kit) || s2.roots() != s3.roots() {
+			out.raw(&format!(
+				"#ORACLE-FAIL C03 {} blocks waiting in the orphan pool (its capacity), then their parent: the node ends on [{}] but in-order delivery ends on [{}]",
+				n_orph,
+				s2.head_str(&kit),
+				s3.head_str(&kit)
+			));
+		}
+	}
 	stats
 }
 
@@ -1523,8 +1690,21 @@ fn main() {
 		out.flush();
 		return;
 	}
+	if args.get(1).map(|s| s == "deep").unwrap_or(false) {
+		let st = run_deep(&mut out, &mut rng, &work);
+		for (k, v) in st {
+			out.raw(&format!("#STAT {}={}", k, v));
+		}
+		out.flush();
+		return;
+	}
 	if args.get(1).map(|s| s == "long").unwrap_or(false) {
-		let st = run_long(&mut out, &mut rng, &work);
+		let user = args.get(2).map(|s| s == "user").unwrap_or(false);
+		if user {
+			std::env::set_var("VERIF_CHAIN_TYPE", "user");
+			setup_globals();
+		}
+		let st = run_long(&mut out, &mut rng, &work, user);
 		for (k, v) in st {
 			out.raw(&format!("#STAT {}={}", k, v));
 		}
